@@ -146,7 +146,7 @@ func (x *Exec) staticCall(fr *Frame, ins ssa.Instruction, fn *ssa.Function, bind
 		_ = pre
 		return packResults(res, nres)
 	}
-	if ct := x.eng.contractFor(fn); ct != nil && !(x.specDepth > 0 && len(ct.Ensures) == 0 && x.target != ct) {
+	if ct := x.eng.contractFor(fn); ct != nil && !(x.specDepth > 0 && len(ct.Ensures) == 0 && x.target != ct) && !(x.target != nil && x.target != ct && contains(x.target.Inline, ct.Name)) {
 		// (a safety-only contract says nothing about results: specification code
 		// that calls such a function sees its body instead)
 		if !(x.target == ct && x.curIsHarness() && x.useMode == 0) {
@@ -229,8 +229,13 @@ func (x *Exec) useContract(fr *Frame, ins ssa.Instruction, ct *Contract, args []
 	x.useSite, x.curUse, x.preCount = ins, ct, 0
 	var result Value
 	x.lastHavocResult = nil
+	x.entryAllocs = append(x.entryAllocs, st.alloc)
 	func() {
-		defer func() { x.useMode--; x.useSite, x.curUse, x.preCount = savedCall, savedUse, savedPre }()
+		defer func() {
+			x.useMode--
+			x.useSite, x.curUse, x.preCount = savedCall, savedUse, savedPre
+			x.entryAllocs = x.entryAllocs[:len(x.entryAllocs)-1]
+		}()
 		_, nst := x.callFunction(h, hargs, nil, st)
 		if nst == nil {
 			unsup("contract function %s does not return", h.Name())
@@ -433,6 +438,24 @@ func (x *Exec) intrinsic(fr *Frame, ins ssa.Instruction, fn *ssa.Function, args 
 		rt := fn.Signature.Results().At(0).Type()
 		r := x.w.Fun("ghost_"+sanitize(gname), x.w.sortOf(rt), a)
 		return r
+	case "Fresh":
+		// the reference was allocated during the call the contract describes
+		a := args[0].(*Term)
+		if a.sort == SSlice {
+			a = x.w.sArr(a)
+		}
+		entry := x.w.Const("alloc!0", SInt)
+		if n := len(x.entryAllocs); n > 0 {
+			entry = x.entryAllocs[n-1]
+		}
+		return x.w.intLt(entry, a)
+	case "Visited":
+		// key k has been produced by the latest range loop over map m
+		m, k := args[0].(*Term), args[1].(*Term)
+		mt := fn.Signature.Params().At(0).Type().Underlying().(*types.Map)
+		vn, cn, ks := x.visComps(mt)
+		cur := ts.Select(x.comp(st, cn, SArr(SInt, SInt)), m)
+		return ts.Select(ts.Select(x.comp(st, vn, SArr(SInt, SArr(ks, SBool))), cur), k)
 	case "SameRef":
 		a, b := args[0].(*Term), args[1].(*Term)
 		if a.sort == SSlice {
@@ -520,7 +543,13 @@ func (x *Exec) builtin(fr *Frame, ins ssa.Instruction, b *ssa.Builtin, c *ssa.Ca
 		case *types.Basic:
 			return x.w.strLen(v)
 		case *types.Map:
-			return x.mapLen(st, v)
+			r := x.mapLen(st, v)
+			// an empty map has no keys
+			dn, _, _, ks, _ := x.mapComps(t)
+			b := ts.Bound("lk", ks)
+			d := ts.Select(x.comp(st, dn, SArr(SInt, SArr(ks, SBool))), v)
+			x.assume(ts.Implies(ts.And(ts.Eq(r, ts.BV(0, 64)), ts.Not(ts.Eq(v, ts.IntLit(0)))), ts.Quant("forall", []*Term{b}, ts.Not(ts.Select(d, b)))))
+			return r
 		case *types.Array:
 			return ts.BV(uint64(t.Len()), 64)
 		case *types.Pointer:
@@ -865,6 +894,9 @@ func (x *Exec) frameCheck(pre, post *State, ins ssa.Instruction) {
 	}
 	defer func() { x.curFn = savedFn }()
 	for _, n := range sorted {
+		if strings.HasPrefix(n, "Gvis_") || strings.HasPrefix(n, "Gcur_") {
+			continue // ghost state of map iteration: not memory
+		}
 		a1 := post.heap[n]
 		a0 := x.comp(pre, n, x.compSort[n])
 		if a0 == a1 {
